@@ -90,7 +90,11 @@ func (st *Runtime) newScope() {
 }
 
 func (st *Runtime) releaseScope() {
-	st.scope = st.scope.parent
+	// st.scope can already be nil when this runs deferred while an error unwinds
+	// through yielded content (which swaps in the caller's scope chain)
+	if st.scope != nil {
+		st.scope = st.scope.parent
+	}
 }
 
 type scope struct {
